@@ -62,6 +62,7 @@ func checkC03(c *Ctx) {
 	ringRule(c, "C03.R6", "C03.R6")
 	ringClearRule(c, "C03.R6")
 	c03R7(c)
+	sessionStateAfterAuth(c, "C03.R8")
 	_ = P
 }
 
